@@ -165,16 +165,16 @@ def build(cls, sn, fn):
     raise common.MachineryError(cls)
 
 
-def run(cls, kind, mk, X, Y):
+def run(cls, kind, mk, X, Y, dim="time"):
     with warnings.catch_warnings():
         warnings.simplefilter("ignore")
         m = mk()
         if kind == "single":
-            m.fit(X, "time")
+            m.fit(X, dim)
         elif kind == "cross":
-            m.fit(X, Y, "time")
+            m.fit(X, Y, dim)
         else:
-            m.fit([X, Y], "time")
+            m.fit([X, Y], dim)
         obj = m
         if cls == "EOFRotator":
             obj = xe.single.EOFRotator(n_modes=3, power=1, max_iter=10000, rtol=1e-13).fit(m)
@@ -221,13 +221,30 @@ def evaluate(i, scn):
     _, mk1 = build(cls, sn, fn)
     if kind == "multi" and rel in ("split_vars", "split_list", "shuffle_list_samples", "permute_samples"):
         return dict(found=[], count={"not_applicable": 1})
-    if rel == "permute_samples":
+    dim = "time"
+    if rel in ("transpose2d", "list_swap_sample_dims") and kind != "single":
+        return dict(found=[], count={"not_applicable": 1})
+    if rel == "transpose2d":
+        # a plain matrix stored feature x sample
+        X = X.stack(f=("y", "x")).reset_index("f", drop=True).assign_coords(f=np.arange(12) * 1.0)
+        flat.labels = {d: X[d].values for d in X.dims}
+        X2, Y2 = X.transpose("f", "time"), Y
+    elif rel == "list_swap_sample_dims":
+        # two sample dimensions; the second list element holds them in the other relative order
+        n2 = X.sizes["time"] // 2
+        Z = X.isel(time=slice(0, 2 * n2))
+        Z = xr.DataArray(np.asarray(Z.values).reshape(n2, 2, 3, 4), dims=("time", "member", "y", "x"),
+                         coords=dict(time=np.arange(n2) * 10, member=["m1", "m2"], y=X.y.values, x=X.x.values), name="fld")
+        a_, b_ = Z.isel(x=slice(0, 2)), Z.isel(x=slice(2, None))
+        X, X2, Y2 = [a_, b_], [a_, b_.transpose("member", "time", "y", "x")], Y
+        dim = ["time", "member"]
+    elif rel == "permute_samples":
         perm = rng.permutation(X.sizes["time"])
         X2, Y2 = X.isel(time=perm), Y.isel(time=perm)
     else:
         X2, Y2 = present(X, rel, rng), Y
-    v1, c1, s1 = run(cls, kind, mk0, X, Y)
-    v2, c2, s2 = run(cls, kind, mk1, X2, Y2)
+    v1, c1, s1 = run(cls, kind, mk0, X, Y, dim)
+    v2, c2, s2 = run(cls, kind, mk1, X2, Y2, dim)
     tag = f"{cls} [{rel}, names={c['names']}]"
     scale = max(np.abs(v1).max(), 1e-300)
     ck.m(v1.shape == v2.shape and np.abs(np.sort_complex(v1.ravel()) - np.sort_complex(v2.ravel())).max() <= 1e-7 * scale, "C07", "C07_LayoutInvariant",
